@@ -250,7 +250,9 @@ def model_class(case):
     return 'all-dont-care-model' if all(v is None for v in vals) else 'dont-cares' if any(v is None for v in vals) else 'defined-model'
 
 
-def run_case(acc, case):
+def run_case(acc, case, known_witness=None):
+    """`known_witness` = (gates, output gates) of a circuit that was built by the caller to satisfy model and constraints
+    (witness family): the brute force is skipped, completeness failures get the class `constraint-with-free-gates+...`."""
     from cirbo.synthesis.circuit_search import CircuitFinderSat, Basis, Operation
     from cirbo.synthesis.exception import NoSolutionError
     from cirbo.core.circuit import gate as gate_mod
@@ -259,8 +261,13 @@ def run_case(acc, case):
           'basis': bname, 'basis_passed_as': case['basis_form'], 'need_normalized': normalized, 'constraints': [list(c) for c in cons], 'time_limit': case.get('time_limit')}
     care = [sum(1 << t for t in range(1 << n) if r[t] is not None) for r in rows3]
     val = [sum(1 << t for t in range(1 << n) if r[t]) for r in rows3]
-    witness = brute_exists(n, m, N_, bname, normalized, cons, care, val)
-    rp['brute_force_witness'] = None if witness is None else {'gates': [[n + k, a, b, t] for k, (a, b, t) in enumerate(witness[0])], 'outputs_at': list(witness[1])}
+    if known_witness is not None:
+        witness = known_witness
+        rp['constructed_witness'] = {'gates': [[n + k, a, b, t] for k, (a, b, t) in enumerate(witness[0])], 'outputs_at': list(witness[1])}
+    else:
+        witness = brute_exists(n, m, N_, bname, normalized, cons, care, val)
+    rp['brute_force_witness'] = None if (witness is None or known_witness is not None) else {
+        'gates': [[n + k, a, b, t] for k, (a, b, t) in enumerate(witness[0])], 'outputs_at': list(witness[1])}
     nontriv = n >= 2 and N_ >= 1
     acc.case(NAME, key=(n, repr(rows3), case['model_kind'], N_, bname, case['basis_form'], normalized, repr(cons), case.get('time_limit')), nontrivial=nontriv,
              sample=rp if nontriv and cons else None)
@@ -297,7 +304,12 @@ def run_case(acc, case):
         else:
             c = finder.find_circuit()
     except NoSolutionError:
-        if witness is not None:
+        if known_witness is not None:
+            kinds = sorted({'forbid-wire' if c[0] == 'forbid' else 'fix-gate' for c in cons})
+            acc.violation('C06/find_circuit/complete', '+'.join(['constraint-with-free-gates'] + kinds),
+                          f'NoSolutionError although the circuit the constraints were read off exists: gates {rp["constructed_witness"]}, '
+                          f'constraints {[list(c) for c in cons]} [{tags(case)}]', rp)
+        elif witness is not None:
             acc.violation('C06/find_circuit/complete', tags(case), f'NoSolutionError although a circuit exists: gates {rp["brute_force_witness"]}', rp)
         return
     except Exception as e:
@@ -422,7 +434,135 @@ def cases_for(chunk):
             yield base_case(3, rows, N_, r.choice(bnames), normalized=r.random() < 0.1)
 
 
+def eval_gates(n, gates):
+    """value bitmask (bit t = value in row t) of every node 0..n+len(gates)-1; operation tables from OP() of vlib/spec."""
+    rows = 1 << n
+    full = (1 << rows) - 1
+    masks = [sum(1 << t for t in range(rows) if (t >> (n - 1 - i)) & 1) for i in range(n)]
+    for a, b, t in gates:
+        A, B = masks[a], masks[b]
+        nA, nB = full ^ A, full ^ B
+        v = 0
+        for bit, q in zip(type_tt(t), (nA & nB, nA & B, A & nB, A & B)):
+            if bit:
+                v |= q
+        masks.append(v)
+    return masks
+
+
+def random_witness(r, n, N_, bname, normalized=False):
+    """A circuit W of the finder's search space (gate n+k reads a < b < n+k, type of the basis) and the outputs taken from it.
+    Mostly with the first two gates independent and in DEcreasing order of their predecessor pairs (gate 3 = f(x1,x2), gate 4 =
+    f(x0,x1)), and the outputs placed such that the positions of these gates matter (two outputs at different gates, or a last
+    gate reading both): the circuits a search with symmetry breaking would not produce itself."""
+    types = [t for t in basis_types(bname) if not (normalized and type_tt(t)[0])]
+    binary = [t for t in types if t not in ('ALWAYS_TRUE', 'ALWAYS_FALSE', 'LNOT', 'RNOT', 'LIFF', 'RIFF')] or types
+    shape = r.choice(['two-outputs', 'two-outputs', 'last-reads-both', 'random'])
+    gates = []
+    for k in range(N_):
+        g = n + k
+        pairs = list(itertools.combinations(range(g), 2))
+        if shape != 'random' and N_ >= 3 and n >= 3 and k < 2:
+            inp = list(itertools.combinations(range(n), 2))
+            if k == 0:
+                a, b = r.choice(inp[1:])                          # not the smallest pair
+            else:
+                a, b = r.choice([p for p in inp if p < (gates[0][0], gates[0][1])])
+            t = r.choice(binary)
+        elif shape == 'last-reads-both' and k == N_ - 1 and N_ >= 3:
+            a, b = g - 2, g - 1
+            t = r.choice(binary)
+        elif shape == 'two-outputs' and k == N_ - 1 and N_ >= 3:
+            a, b = r.choice([p for p in pairs if (g - 1 in p) != (g - 2 in p)] or pairs)   # reads exactly one of the two
+            t = r.choice(binary)
+        else:
+            a, b = r.choice(pairs)
+            t = r.choice(types)
+        gates.append((a, b, t))
+    last = n + N_ - 1
+    if shape == 'two-outputs' and N_ >= 3:
+        other = (last - 1) if (last - 2) in gates[-1][:2] else (last - 2)       # the gate the last one does not read
+        outs = [last, other]
+        r.shuffle(outs)
+    elif shape == 'last-reads-both':
+        outs = [last]
+    else:
+        outs = [r.randrange(n, n + N_) for _ in range(r.choice([1, 2]))]
+        if last not in outs and r.random() < 0.7:
+            outs[0] = last
+    return tuple(gates), tuple(outs)
+
+
+def unused_wires(n, gates, g):
+    """every wire c -> g (c < g) that the circuit does not use"""
+    a, b, _t = gates[g - n]
+    return [('forbid', c, g) for c in range(g) if c not in (a, b)]
+
+
+def witness_cases(chunk):
+    """(case, known witness) of the family 'constraints read off a constructed circuit W while other gates stay free':
+    W is drawn by `random_witness`, the model is W's truth table (spec evaluator), and a FRESH finder gets
+      fix:g        only fix_gate(g, first_predecessor, second_predecessor, gate_type) of one gate g of W,
+      fix-notype:g the same without gate_type (thorough),
+      forbid:g     only the forbid_wire calls for every wire into g that W does not use,
+      forbid:all   those of all gates (W's topology is the only one left).
+    W obeys each of these, so NoSolutionError is a completeness failure without any brute force.
+    Quick tier: fix:<last gate> for every W plus one of fix:<earlier gate> / forbid:g / forbid:all in rotation."""
+    _, n, N_, start, count, full = chunk
+    bases = ['XAIG', 'AIG', 'custom:and,or,xor', 'FULL', 'XAIG', 'AIG', 'custom:and,xor']
+    for i in range(start, start + count):
+        r = M.rng('C06', 'witness', n, N_, i)
+        bname = bases[i % len(bases)]
+        normalized = (i % 11 == 10)
+        gates, outs = random_witness(r, n, N_, bname, normalized)
+        masks = eval_gates(n, gates)
+        rows = [[bool((masks[o] >> t) & 1) for t in range(1 << n)] for o in outs]
+        last = n + N_ - 1
+        if full:
+            sel = [('fix', g) for g in range(n, n + N_)] + [('fix-notype', g) for g in range(n, n + N_)] + \
+                  [('forbid', g) for g in range(n, n + N_)] + [('forbid', 'all')]
+        else:
+            # two calls per witness (a find_circuit call on n = N = 3 costs ~0.3 s with the z3-backed solver shim): always the
+            # LAST gate pinned (all earlier gates free); then in rotation an earlier gate pinned / the unused wires into one
+            # gate forbidden / all unused wires forbidden
+            sel = [('fix', last), [('forbid', last - (i // 4) % N_), ('fix', n + (i // 4) % max(1, N_ - 1)), ('forbid', 'all'),
+                                   ('fix', n + (1 + i // 4) % max(1, N_ - 1))][i % 4]]
+        for what in dict.fromkeys(x for x in sel if x):
+            kind, g = what
+            if kind == 'fix':
+                a, b, t = gates[g - n]
+                cons = [('fix', g, a, b, t)]
+            elif kind == 'fix-notype':
+                a, b, t = gates[g - n]
+                cons = [('fix', g, a, b, None)]
+            elif g == 'all':
+                cons = [w for gg in range(n, n + N_) for w in unused_wires(n, gates, gg)]
+            else:
+                cons = unused_wires(n, gates, g)
+            if not cons:
+                continue
+            assert constraint_ok(gates, n, cons)
+            yield base_case(n, rows, N_, bname, constraints=cons, normalized=normalized, constraints_after_cnf=(i % 3 == 0)), (gates, outs)
+
+
+def work_witness(acc, chunk):
+    budget = M.Budget(chunk[-1])
+    skipped = 0
+    for case, wit in witness_cases(chunk[:-1]):
+        if not budget.left():
+            skipped += 1
+            continue
+        try:
+            run_case(acc, case, known_witness=wit)
+        except Exception as e:
+            acc.note('driver_internal_error', f'C06 witness case {case}: {M.exc_str(e)}')
+    if skipped:
+        acc.notes['cases_skipped_for_time'] = acc.notes.get('cases_skipped_for_time', 0) + skipped
+
+
 def work(acc, chunk):
+    if chunk[0] == 'witness':
+        return work_witness(acc, chunk)
     budget = M.Budget(chunk[-1])
     chunk = chunk[:-1]
     skipped = 0
@@ -457,7 +597,8 @@ def run_bounded(rep, quick):
                   ('n2m1', 1, ['AIG', 'XAIG', 'FULL', 'custom:and,xor', 'custom:nand'], 2, 5),
                   ('n2m1', 2, ['AIG', 'FULL', 'XAIG', 'custom:and,or,xor'], 2, 10),
                   ('constraints', 2, 2, 130, 7), ('constraints', 2, 1, 20, 1),
-                  ('n2m2', 2, 40, 3), ('n2m2', 1, 25, 1), ('normalized', 2, 20, 1), ('normalized', 1, 20, 1)]
+                  ('n2m2', 2, 40, 3), ('n2m2', 1, 25, 1), ('normalized', 2, 20, 1), ('normalized', 1, 20, 1),
+                  ('witness', 3, 3, 0, 40, False, 30)]
     else:
         chunks = [('tiny', 30), ('time-limit', 30),
                   ('n2m1', 1, ['AIG', 'XAIG', 'FULL'] + list(CUSTOM), 1, 120), ('n2m1', 2, ['AIG', 'XAIG'], 1, 200), ('n2m1', 2, ['FULL', 'custom:and,or,xor'], 1, 200),
@@ -469,6 +610,7 @@ def run_bounded(rep, quick):
         chunks += [('n3', 1, 150, ['AIG', 'XAIG', 'FULL'], 200), ('n3', 2, 120, ['AIG', 'XAIG', 'FULL', 'custom:and,or,xor'], 0, 400),
                    ('n3', 2, 120, ['AIG', 'XAIG', 'FULL', 'custom:and,or,xor'], 1, 400), ('n3', 3, 50, ['custom:and,or,xor', 'custom:and,xor'], 0, 500),
                    ('n3', 3, 50, ['custom:and,or,xor', 'custom:and,xor'], 1, 500)]
+        chunks += [('witness', 3, 3, 25 * i, 25, True, 600) for i in range(12)] + [('witness', 2, 3, 0, 40, True, 300), ('witness', 3, 2, 0, 40, True, 300)]
     # the time_limit runs start a process pool themselves: keep them in this (non-daemonic) process
     own = [c for c in chunks if c[0] == 'time-limit']
     chunks = [c for c in chunks if c[0] != 'time-limit']
